@@ -90,11 +90,16 @@ def main():
         if "--checks" in sys.argv:
             checks = sys.argv[sys.argv.index("--checks") + 1].split(",")
         src = "/tmp/seed-%s-out" % prop
+        tag = ""
+        if "--src" in sys.argv:
+            src = sys.argv[sys.argv.index("--src") + 1]
+        if "--tag" in sys.argv:
+            tag = sys.argv[sys.argv.index("--tag") + 1] + "-"
         for n in sorted(os.listdir(src)):
             s = os.path.join(src, n)
             if not os.path.isdir(s) or not os.path.exists(os.path.join(s, "patch.diff")):
                 continue
-            d = os.path.join(HERE, "seeded", "%s-%s" % (prop, n))
+            d = os.path.join(HERE, "seeded", "%s-%s%s" % (prop, tag, n))
             if os.path.exists(d):
                 shutil.rmtree(d)
             shutil.copytree(s, d)
